@@ -7,7 +7,7 @@ sys.path.insert(0, os.path.dirname(os.path.abspath(__file__)))
 
 CFG = 'CONSTANTS\n  Vars <- MCVars\n  Vals <- MCVals\n  Semantics = "%s"\n  Depth = %d\n'
 VARS = ["db", "PK", "OsIndications", "osindications", "db@global", "dbx@global", "Plain0"]
-VALS = ["empty", "d1", "d1b", "d3", "dc", "d1c", "huge"]
+VALS = ["empty", "d1", "d1b", "d3", "dc", "d1c", "huge", "zlead"]
 
 
 def emit(c, depth, simulate=None):
@@ -73,6 +73,8 @@ def run(c):
     scen = []
     for i, h in enumerate(hs):
         s = {"sc": i, "ops": h, "tz": ("", "-03:30", "+09:00")[i % 3]}      # process time zone
+        if i % 4 == 2 and len(h) >= 2:
+            s["second_store"] = True     # half-way another store is created, populated and written to
         if i % 3 == 1:   # pre-populated stores
             s["pre"] = {c.rng.choice(["db", "PK", "KEK"]): c.rng.choice(VALS[1:])}
         scen.append(s)
